@@ -29,10 +29,13 @@ import (
 func NewStack(via string) (outer *fifo.Group, inner *fifo.Group) {
 	outer = fifo.NewGroup()
 
+	// The framing check has to see Content-Length and Transfer-Encoding as the client
+	// sent them, so it runs before the hop-by-hop modifier removes Transfer-Encoding.
+	outer.AddRequestModifier(header.NewBadFramingModifier())
+
 	hbhm := header.NewHopByHopModifier()
 	outer.AddRequestModifier(hbhm)
 	outer.AddRequestModifier(header.NewForwardedModifier())
-	outer.AddRequestModifier(header.NewBadFramingModifier())
 
 	vm := header.NewViaModifier(via)
 	outer.AddRequestModifier(vm)
